@@ -108,6 +108,28 @@ func shapes() []shape {
 			return err
 		}
 		m.EmbedReadSeeker("seek.png", bytes.NewReader([]byte(bin)), mail.WithFileEncoding(mail.NoEncoding))
+		// a read-seeker the caller has already read from: its content is what follows the current position,
+		// on every render
+		pos := bytes.NewReader([]byte("SKIPPED-PREFIX:" + bin))
+		if _, err := pos.Seek(int64(len("SKIPPED-PREFIX:")), io.SeekStart); err != nil {
+			return err
+		}
+		m.AttachReadSeeker("positioned.bin", pos)
+		// sources large enough that a failing destination stops the copy in the middle of the source
+		big := bytes.Repeat([]byte("0123456789abcdef"), 300)
+		m.AttachReadSeeker("big-seeker.bin", bytes.NewReader(big))
+		if err := m.AttachReader("big-reader.bin", bytes.NewReader(big)); err != nil {
+			return err
+		}
+		bf := filepath.Join(dir, "bigfile.bin")
+		if err := os.WriteFile(bf, big, 0o644); err != nil {
+			return err
+		}
+		fh, err := os.Open(bf)
+		if err != nil {
+			return err
+		}
+		m.AttachReadSeeker("big-osfile.bin", fh)
 		return nil
 	}})
 	return out
